@@ -27,18 +27,20 @@ var ioScenarioNames = map[string][]string{
 	"C05": {"include-read", "plain-include-read"},
 	"C06": {"exclude-read", "except-include-read"},
 	"C07": {"include-with-definitions-read"},
-	"C10": {"format-read", "format-include-read"},
-	"C11": {"update-rules-read"},
-	"C12": {"update-assembly-read"},
-	"C13": {"renumber-read", "renumber-all-read"},
-	"C14": {"copyright-read", "copyright-list-dir"},
+	"C10": {"format-read", "format-include-read", "format-write"},
+	"C11": {"update-rules-read", "update-rules-write", "update-rules-open"},
+	"C12": {"update-assembly-read", "update-rules-write", "update-rules-open", "update-chain-rules-write"},
+	"C13": {"renumber-read", "renumber-all-read", "renumber-write", "renumber-open"},
+	"C14": {"copyright-read", "copyright-list-dir", "copyright-write"},
 	"C17": {"include-read", "plain-include-read", "format-read", "renumber-read", "copyright-read", "update-rules-read"},
 }
 
 func ioCases(prop string) []*ioScenario {
 	var out []*ioScenario
 	for _, n := range ioScenarioNames[prop] {
-		out = append(out, &ioScenario{Name: n, When: "2+"})
+		if !strings.HasSuffix(n, "-write") {
+			out = append(out, &ioScenario{Name: n, When: "2+"})
+		}
 		if n != "copyright-list-dir" {
 			out = append(out, &ioScenario{Name: n})
 		}
@@ -91,6 +93,24 @@ func ioScenarioCheck(env *core.Env, prop string, sc *ioScenario) core.Verdict {
 		args, poison = []string{"regex", "format", "big"}, "regex-assembly/include/big.ra"
 	case "update-rules-read":
 		args, poison = []string{"regex", "update", "932100"}, "rules/REQUEST-932-APPLICATION-ATTACK-RCE.conf"
+	case "update-rules-write":
+		// the rules file can be read but not written (no space left): a single-target update must not report success
+		args, poison, call, errno = []string{"regex", "update", "932100"}, "rules/REQUEST-932-APPLICATION-ATTACK-RCE.conf", "write", "ENOSPC"
+	case "update-chain-rules-write":
+		tree["regex-assembly/932100-chain1.ra"] = "chained\nwords\n"
+		tree["rules/REQUEST-932-APPLICATION-ATTACK-RCE.conf"] = strings.Replace(rules, "    ver:'OWASP_CRS/4.0.0'\"\n", "    ver:'OWASP_CRS/4.0.0',\\\n    chain\"\n    SecRule ARGS \"@rx oldchained\" \\\n        \"t:none\"\n", 1)
+		args, poison, call, errno = []string{"regex", "update", "932100-chain1"}, "rules/REQUEST-932-APPLICATION-ATTACK-RCE.conf", "write", "ENOSPC"
+	case "update-rules-open":
+		// opening the rules file fails (every time, or from the second time on: it can be read but not opened for writing)
+		args, poison, call, errno = []string{"regex", "update", "932100"}, "rules/REQUEST-932-APPLICATION-ATTACK-RCE.conf", "openat", "EACCES"
+	case "format-write":
+		args, poison, call, errno = []string{"regex", "format", "932100"}, "regex-assembly/932100.ra", "write", "ENOSPC"
+	case "renumber-write":
+		args, poison, call, errno = []string{"util", "renumber-tests", "932100"}, "tests/regression/tests/REQUEST-932-X/932100.yaml", "write", "ENOSPC"
+	case "renumber-open":
+		args, poison, call, errno = []string{"util", "renumber-tests", "932100"}, "tests/regression/tests/REQUEST-932-X/932100.yaml", "openat", "EACCES"
+	case "copyright-write":
+		args, poison, call, errno = []string{"chore", "update-copyright", "-v", "4.9.9", "-y", "2031"}, "rules/REQUEST-932-APPLICATION-ATTACK-RCE.conf", "write", "ENOSPC"
 	case "update-assembly-read":
 		args, poison = []string{"regex", "update", "932100"}, "regex-assembly/932100.ra"
 	case "renumber-read":
@@ -110,7 +130,7 @@ func ioScenarioCheck(env *core.Env, prop string, sc *ioScenario) core.Verdict {
 	before := sut.Snap(root)
 	logf := filepath.Join(filepath.Dir(root), "inject.log")
 	when := sc.When
-	if call != "read" {
+	if call != "read" && call != "openat" {
 		when = ""
 	}
 	r := sut.Run(sut.Cmd{Bin: env.Bin, Args: append([]string{"-d", root}, args...), Stdin: stdin, Dir: root, Strace: logf,
@@ -137,6 +157,9 @@ func ioScenarioCheck(env *core.Env, prop string, sc *ioScenario) core.Verdict {
 			return core.Viol("io-fault:prints-partial-result:"+sc.Name, "%s: failed (exit %d) but printed %s", what, r.Exit, core.Q(string(r.Stdout)))
 		}
 		for _, d := range diff {
+			if d[1:] == poison && call == "write" {
+				continue // a file whose write failed half-way may be damaged; that the failure is reported is what counts here
+			}
 			if d[1:] == poison || !strings.Contains(sc.Name, "all") && !strings.HasPrefix(sc.Name, "copyright") {
 				return core.Viol("io-fault:failed-but-wrote:"+sc.Name, "%s: exit %d but changed %v", what, r.Exit, diff)
 			}
@@ -180,10 +203,14 @@ func ioScenarioCheck(env *core.Env, prop string, sc *ioScenario) core.Verdict {
 		got, _ := sut.Read(root, "rules/REQUEST-932-APPLICATION-ATTACK-RCE.conf")
 		g := cli(env, root, nil, "regex", "generate", "932100")
 		want := strings.Replace(rules, `"@rx old"`, `"@rx `+string(g.Stdout)+`"`, 1)
+		if sc.Name == "update-chain-rules-write" {
+			g = cli(env, root, nil, "regex", "generate", "932100-chain1")
+			want = strings.Replace(tree["rules/REQUEST-932-APPLICATION-ATTACK-RCE.conf"], `"@rx oldchained"`, `"@rx `+string(g.Stdout)+`"`, 1)
+		}
 		if g.Exit != 0 || got != want {
 			return core.Viol("io-fault:silent-partial-result:"+sc.Name, "%s: exit 0, but the rules file is not the old one with the operand of 932100 replaced by generate's output (%d bytes, expected %d)\n%s", what, len(got), len(want), firstDiffShort(got, want))
 		}
-		if cm := cli(env, root, nil, "-o", "github", "regex", "compare", "932100"); cm.Exit != 0 {
+		if cm := cli(env, root, nil, "-o", "github", "regex", "compare", args[len(args)-1]); cm.Exit != 0 {
 			return core.Viol("io-fault:compare-after-update:"+sc.Name, "%s: exit 0, but compare fails right afterwards: %s", what, describe(cm))
 		}
 	case strings.HasPrefix(sc.Name, "renumber"):
